@@ -285,7 +285,7 @@ class Laws(Suite):
     case_ty = "case"
     obs_ty = "obs"
     kf = "kf"
-    kf_ids = {3: "F7c", 8: "F7i", 9: "F7j", 10: "F7k"}
+    kf_ids = {3: "F7l", 8: "F7i", 9: "F7j", 10: "F7k"}
     corr = "Identifier.__eq__/__hash__/__lt__/__gt__, Literal.__eq__/__hash__/__lt__/__gt__/eq, _ORDERING"
     quick_n = 700
     thorough_n = 12000
@@ -502,8 +502,6 @@ class Text(Suite):
     model = "tmodel_obs"
     oeq = "tobs_eqb"
     spec = "tspec_ok"
-    kf = "tkf"
-    kf_ids = {1: "F7a", 7: "F7h"}
     corr = ("URIRef.n3, BNode.n3, Variable.n3, Literal.n3/_literal_n3/_quote_encode, util.from_n3, "
             "__reduce__ of the four classes + constructors")
     quick_n = 900
@@ -579,25 +577,34 @@ class Text(Suite):
             obs["from"] = back(from_n3(n))
         except Exception:  # noqa: BLE001
             obs["from"] = "raise"
+        # the literal the default constructor builds from (lexical form, language, datatype): what every reader of
+        # text must return (the term itself unless it was built with normalize=False)
+        nf = j
+        if j[0] == "L":
+            try:
+                nf = tj(Literal(j[1], lang=j[3], datatype=None if j[2] is None else URIRef(j[2])))
+            except Exception:  # noqa: BLE001
+                nf = j
         # read back through a one-triple Turtle document (IRIs with a scheme, literals)
         if (j[0] == "I" and ":" in j[1]) or j[0] == "L":
             try:
                 g = Graph()
                 g.parse(data="<http://s> <http://p> %s ." % n, format="turtle")
                 objs = list(g.objects())
-                ok = len(objs) == 1 and back(objs[0]) == j
+                ok = len(objs) == 1 and back(objs[0]) == nf
             except Exception as e:  # noqa: BLE001
                 ok = False
                 why.append("turtle: " + type(e).__name__)
             obs["flags"][1] = ok
-        # read back through SPARQL (BIND and VALUES); see notes/C07.md for the two exclusions
+        # read back through SPARQL (BIND and VALUES); the SPARQL parser does not normalise, so either the term or its
+        # normal form is accepted; see notes/C07.md for the two exclusions
         respelled = j[0] == "L" and not n.startswith(t._quote_encode())
         if (j[0] == "I" or (j[0] == "L" and "\\u" not in j[1] and "\\U" not in j[1] and not respelled)):
             ok = True
             for q in ("SELECT ?v WHERE { BIND(%s AS ?v) }", "SELECT ?v WHERE { VALUES ?v { %s } }"):
                 try:
                     rows = list(Graph().query(q % n))
-                    ok = ok and len(rows) == 1 and back(rows[0][0]) == j
+                    ok = ok and len(rows) == 1 and back(rows[0][0]) in (j, nf)
                 except Exception as e:  # noqa: BLE001
                     ok = False
                     why.append("sparql: " + type(e).__name__)
@@ -674,7 +681,9 @@ TRUSTED = [
 ASSUMPTIONS = [
     "PYTHONHASHSEED=0; the hash of a str is supplied to the model as an oracle table, the theorems only use that it is a function",
     "the lexical form Literal(lex, datatype=dt) builds for a recognised datatype other than the [+-]?[0-9]+ forms of xsd:integer "
-    "is supplied as an oracle (normalisation is the subject of C09); the model decides only where it is used",
+    "is supplied as an oracle (normalisation is the subject of C09); the model decides only where it is used; 'the same term' for "
+    "text read back by from_n3 / Turtle is the literal that default constructor builds (the term itself unless built with normalize=False)",
+    "laws: whether rdflib holds a literal to be ill-typed is supplied as an oracle used only by the trigger of finding F7k",
     "rdflib.DAWG_LITERAL_COLLATION is False and rdflib.NORMALIZE_LITERALS is True (defaults; reflected into Gen/Tables_term.v)",
     "ordering of two literals is modelled for plain/xsd:string/language-tagged and [+-]?[0-9]+ xsd:integer literals; for all other "
     "pairs of literals only 'the comparison does not raise' is checked",
